@@ -102,11 +102,18 @@ def soundOn (allow requests : List PolicyRule) : Bool :=
 def handler : Handler := fun scn =>
   let kind := str scn "kind"
   let allow := (arr scn "allow").map pruleOf
-  if kind == "validate" then
+  if kind == "tree" then
+    let pathOf := fun (j : Json) => match j with | .arr a => a.toList.filterMap (·.getStr?.toOption) | _ => []
+    let t := ((arr scn "paths").map pathOf).foldl (fun t q => t.allow q) Node.empty
+    let res := (arr scn "queries").map fun q => Json.bool (t.allowed (pathOf q))
+    let out := Json.mkObj [("allowed", Json.arr res.toArray), ("rejected", Json.arr #[]), ("verr", .bool false),
+      ("cov", Json.arr #[]), ("results", Json.arr #[]), ("writes", Json.arr #[]), ("roles", Json.arr #[]), ("bindings", Json.arr #[])]
+    .ok (out, true, "")
+  else if kind == "validate" then
     let requests := (arr scn "requests").map pruleOf
     let rej := validate allow requests
     let cov := requests.flatMap fun q => (breakdown q).map fun s => Json.bool (covers allow s)
-    let out := Json.mkObj [("rejected", Json.arr (rej.map ruleJson).toArray), ("verr", .bool false),
+    let out := Json.mkObj [("allowed", Json.arr #[]), ("rejected", Json.arr (rej.map ruleJson).toArray), ("verr", .bool false),
       ("cov", Json.arr cov.toArray), ("results", Json.arr #[]), ("writes", Json.arr #[]), ("roles", Json.arr #[]), ("bindings", Json.arr #[])]
     let ok := soundOn allow requests
     .ok (out, ok, if ok then "" else "C18:tree-sound-partial-false")
@@ -143,7 +150,7 @@ def handler : Handler := fun scn =>
         else ([], true)
     let roles := (sN.roles.filter (·.name ≠ allowName)).mergeSort (fun a b => a.name ≤ b.name)
     let bindings := sN.bindings.mergeSort (fun a b => a.name ≤ b.name)
-    let out := Json.mkObj [("rejected", Json.arr (rej.map ruleJson).toArray), ("verr", .bool verr),
+    let out := Json.mkObj [("allowed", Json.arr #[]), ("rejected", Json.arr (rej.map ruleJson).toArray), ("verr", .bool verr),
       ("cov", Json.arr #[]), ("results", jstrs results),
       ("writes", Json.arr (writes.map jstrs).toArray),
       ("roles", Json.arr (roles.map roleJson).toArray),
